@@ -682,7 +682,7 @@ func TestVerifC08Flv(t *testing.T) {
 		runOne(c, false)
 	}
 	// reads: every cut offset of small files under several segmentations and terminal errors
-	nSmall := k.N(24, 400)
+	nSmall := k.N(36, 400)
 	for i := 0; i < nSmall; i++ {
 		hv, ha, tags, wl, _ := vC08GenTags(k.rnd, true)
 		for j := 0; j < 3; j++ {
